@@ -14,7 +14,12 @@
      apply_op, run      op.apply(vector), folding it over a circuit
      groupby, sim_keys, sim   split_circuit and BaseWavefunctionSimulator.get_wavefunction
      circuit, mk_circuit, cadd, cappend   widths and concatenation
-   Theorems are in CircuitProofs.v, stated against [Lift.lift_spec]. *)
+     wf_gate, wf_op, gate_spec, op_spec, prog_prod, circ_wf   vocabulary of the specification:
+                        prog_prod d [M1; ...; Mm] = Mm * ... * M1, gate_spec n g = lift_spec (g_mat g) (g_qs g) n
+   Theorems are in CircuitProofs.v, stated against [Lift.lift_spec]: to_unitary_program_order, run_eq_unitary,
+   run_eq_product, sim_keys_correct, sim_predicate_independent, concat_composes, to_unitary_widen, concat_unitary.
+   Evaluation: [lifted], [to_unitary], [apply_op] tabulate with memo/vmemo, so bind their results (or compare
+   through to_list) rather than re-applying the defining expression entry by entry. *)
 Require Import Coq.Arith.Arith Coq.Lists.List Coq.Bool.Bool.
 Require Import OQ.Base.Ring OQ.Base.Sums OQ.Base.Bits OQ.Base.Mat OQ.Circ.Lift.
 Import ListNotations.
